@@ -22,6 +22,9 @@ def plan(pid, tier):
     # whole-population sweeps at sizes straddling 2^16 and 2^20 (thorough: 2^24 too): index-width and size-threshold behaviour
     if pid in ("C01", "C02", "C04", "C06", "C07", "C08", "C12", "C13"):
         legs.append(hx_leg("POP", sizes=[65537, 1048577] + ([] if tier == "quick" else [16777216])))
+    # the same at scale on the events build: logs with more than 2^16 / 2^20 entries, exact size_hint, clears, clone
+    if pid in ("C17", "C13"):
+        legs.append(hx_leg("POP", features=("events",), sizes=[65537, 1048577]))
     return legs
 
 
